@@ -115,4 +115,8 @@ def as_dict(cfg, **extra):
     kw.update(extra)
     if "cls" in cfg:
         return {"indicator": cfg["cls"], **kw}
-    return {"analysis": cfg["analysis"], **kw}
+    own = {k: kw.pop(k) for k in list(kw) if k in ("timeframe", "timeframe_fill", "round_value", "name_suffix", "fullname_override")}
+    d = {"analysis": cfg["analysis"], **own}
+    if kw:
+        d["args"] = kw  # analysis arguments travel in 'args' ('indicator' would clash with the dict key)
+    return d
